@@ -69,7 +69,7 @@ Print Assumptions unstake_never_fails.
     checker answers 0.  So an alarm on clause 1-6 always means the implementation left the model or the property. *)
 Theorem checker_predicate_holds_on_the_model :
   forall (s : state) (st : step) (oc0 : outcome) (rw0 : list (denom * Z)),
-    reachable s -> valid_step st -> (match st with Msg m => In (sender m) actors | NextBlock => True end) ->
+    reachable s -> valid_step st -> actor_step st ->
     c05_step (height s) (obs_of s oc0 rw0) st
              (obs_of (fst (fst (exec_step s st))) (snd (fst (exec_step s st))) (snd (exec_step s st))) = 0.
 Proof. intros s st oc0 rw0 R. exact (model_passes_c05 s st oc0 rw0 (reachable_inv _ R)). Qed.
